@@ -90,7 +90,7 @@ class timedelta:
         u = self._us()
         if isinstance(u, int):
             return u / 10**6
-        return SFloat.of(u) / 10**6
+        return SFloat.ratio(u, 10**6)        # C: int / int true division, correctly rounded
 
     def __neg__(self):
         return timedelta(-self._vf_d, -self._vf_s, -self._vf_us)
@@ -203,38 +203,38 @@ def _divide_and_round(a, b):
 
 
 def _float_components(days, seconds, microseconds, milliseconds, minutes, hours, weeks):
-    """C delta_new's accumulation for float arguments, for the cases the re-hosted code needs:
-    every float argument other than `seconds` must be integral-valued; `seconds` may carry a
-    fraction with denominator 10**6 (plus a bounded rounding error).  The leftover fraction is
-    rounded half-even to microseconds; under the error model *any* integer within 1/2 is
-    admitted."""
-    def integral(x, what):
-        if isinstance(x, SFloat):
-            if x.d == 1 and x.exact():
-                return x.n
-            raise Unmodelled(f"non-integral float {what} in timedelta()")
-        if isinstance(x, float):
-            if x.is_integer():
-                return int(x)
-            raise Unmodelled(f"non-integral float {what} in timedelta()")
-        return x
-    d = integral(days, "days") + integral(weeks, "weeks") * 7
-    s_int = integral(minutes, "minutes") * 60 + integral(hours, "hours") * 3600
-    us = integral(microseconds, "microseconds") + integral(milliseconds, "milliseconds") * 1000
-    if isinstance(seconds, (float, SFloat)):
-        x = SFloat.of(seconds)
-        ip = x.trunc()                         # modf: integer part toward zero
-        frac = x - SFloat.of(ip)               # exact
-        frac = SFloat(frac.n, frac.d, x.elo, x.ehi, x.zint)
-        fus = round(frac * 10**6)
-        s_int = s_int + ip
-        us = us + fus
-    else:
-        s_int = s_int + seconds
-    q, us = divmod(us, 1000000)
-    s = s_int + q
-    q, s = divmod(s, 86400)
-    d = d + q
+    """C delta_new's accumulation (accum()) for float arguments: per argument the integral part is exact,
+    the fractional part times the unit factor is one float multiplication, truncated, and what is left
+    over is summed and finally rounded half-even to microseconds.  Under the error model the final
+    rounding admits any integer within 1/2 of the (error-bounded) leftover."""
+    total = 0                 # exact integer microseconds
+    leftover = SFloat(0, 1)
+    have_left = False
+    for val, factor in ((days, 86400 * 10**6), (seconds, 10**6), (microseconds, 1), (milliseconds, 1000),
+                        (minutes, 60 * 10**6), (hours, 3600 * 10**6), (weeks, 7 * 86400 * 10**6)):
+        if isinstance(val, float):
+            val = SFloat.of(val)
+        if isinstance(val, SFloat):
+            if val.d == 1 and val.exact():
+                total = total + val.n * factor
+                continue
+            ip = val.trunc()
+            frac = val - SFloat.of(ip)
+            frac = SFloat(frac.n, frac.d, val.elo, val.ehi, val.zint)      # x - trunc(x) is exact
+            total = total + ip * factor
+            t = frac * factor
+            ip2 = t.trunc()
+            rest = t - SFloat.of(ip2)
+            rest = SFloat(rest.n, rest.d, t.elo, t.ehi, t.zint)
+            total = total + ip2
+            leftover = (leftover + rest) if have_left else rest
+            have_left = True
+        else:
+            total = total + val * factor
+    if have_left:
+        total = total + round(leftover)
+    d, rem = divmod(total, 86400 * 10**6)
+    s, us = divmod(rem, 10**6)
     return d, s, us
 
 
